@@ -316,7 +316,14 @@ class Framer(tasking.Tasker):
                                              human=human,
                                              count=count )
             name = "_".join((self.surname, tag))  # replace name with full name
-            clone = original.clone(name=name, tag=tag, schedule=schedule)
+            try:
+                clone = original.clone(name=name, tag=tag, schedule=schedule)
+            except excepting.CloneError as ex:  # such as full name already in use
+                raise excepting.ResolveError("Bad clone of original. {0}".format(ex),
+                                             name=original.name,
+                                             value=name,
+                                             human=human,
+                                             count=count )
             clone.sources = self.sources + (original.name, )
             self.auxes[tag] = clone
 
